@@ -31,7 +31,21 @@ func init() {
 var c07Atoms = []string{"a", "b", "c", "ab", "abc", "x", "-", "/", "1", "12345", "é", "ü", "ß", "日", "本", "語", "😀", "𝄞", "é", "à́", " ", "  ", "\t", "\n", "\r", "\r\n", " ", " ", " ", "aa", "aaa", "bar", "--", "A", "B", "C",
 	"\uFFFD", "\uFEFF", "\u0085", "\u200B", "\u2028", "\uFFFD\uFFFD", "a\uFFFDb", "\U0010FFFF", "\uE000", "\u007F", "\u0001", "\uD7FF", "\uFFFE", "Р", "上", "†", "č", "😊", "\u2009", "\u200A", "\u0120", "\u010A", "\u010D", "\u0109"}
 
+// long atoms: results around and beyond the sizes of typical small-string buffers (64, 256, 1024 bytes)
+var c07Long = []string{strings.Repeat("x", 100), strings.Repeat("é", 100), strings.Repeat("ab", 64), strings.Repeat("z", 255), strings.Repeat("日", 90), strings.Repeat("q", 63), strings.Repeat("0123456789", 103), strings.Repeat(" ", 130), strings.Repeat("😀", 70)}
+
 func genStr(g *rng.R) string {
+	if g.P(6) {
+		var sb strings.Builder
+		for i := g.Range(1, 3); i > 0; i-- {
+			if g.P(70) {
+				sb.WriteString(rng.Pick(g, c07Long))
+			} else {
+				sb.WriteString(rng.Pick(g, c07Atoms))
+			}
+		}
+		return sb.String()
+	}
 	switch g.Intn(10) {
 	case 0:
 		return ""
